@@ -269,6 +269,7 @@ struct W<'s, A: Pay, B: Pay> {
     light: bool,
     last_a: usize,
     z0: i64,
+    soft: Vec<Viol>,
 }
 
 /// An ExactSizeIterator handing out freshly made tracked elements.
@@ -467,17 +468,10 @@ impl<'s, A: Pay + Send + Sync, B: Pay + Send + Sync> W<'s, A, B> {
                 } else {
                     self.st.counts.bump(&format!("count_obs.{}", name));
                 }
-                ensure!(
-                    *c == owners,
-                    "C04",
-                    "count",
-                    "after {}: {} through a {} handle reports {} but {} owning handles exist",
-                    ctx,
-                    name,
-                    kind,
-                    c,
-                    owners
-                );
+                if *c != owners {
+                    let msg = format!("after {}: {} through a {} handle reports {} but {} owning handles exist", ctx, name, kind, c, owners);
+                    crate::hist::soft_push(&mut self.soft, "C04", "count", msg);
+                }
             }
         }
         let expect = self.expected_live();
@@ -925,7 +919,7 @@ impl<'s, A: Pay + Send + Sync, B: Pay + Send + Sync> W<'s, A, B> {
     }
 }
 
-pub fn run_one<A: Pay + Send + Sync, B: Pay + Send + Sync>(seed: u64, nops: usize, light: bool, st: &mut Stats) -> Result<(), (Viol, Vec<String>)> {
+pub fn run_one<A: Pay + Send + Sync, B: Pay + Send + Sync>(seed: u64, nops: usize, light: bool, st: &mut Stats) -> Result<(), (Vec<Viol>, Vec<String>)> {
     let id0 = tk::next_id();
     shadow::reset();
     let _ = tk::take_findings();
@@ -939,6 +933,7 @@ pub fn run_one<A: Pay + Send + Sync, B: Pay + Send + Sync>(seed: u64, nops: usiz
         light,
         last_a: usize::MAX,
         z0: tk::z_live(),
+        soft: Vec::new(),
     };
     let mut res = Ok(());
     for _ in 0..nops {
@@ -955,14 +950,17 @@ pub fn run_one<A: Pay + Send + Sync, B: Pay + Send + Sync>(seed: u64, nops: usiz
     if w.st.sample.is_empty() || seed % 97 == 0 {
         w.st.sample = w.trace.iter().take(40).cloned().collect();
     }
+    let mut viols = std::mem::take(&mut w.soft);
     let out = match res {
-        Ok(()) => Ok(()),
+        Ok(()) if viols.is_empty() => Ok(()),
+        Ok(()) => Err((viols, std::mem::take(&mut w.trace))),
         Err(v) => {
             let t = std::mem::take(&mut w.trace);
             for s in w.slots.drain(..) {
                 std::mem::forget(s);
             }
-            Err((v, t))
+            viols.push(v);
+            Err((viols, t))
         }
     };
     drop(w);
